@@ -364,6 +364,7 @@ def cvc5_crosscheck(results, limit=48, serial=False):
         elif r == "unknown":
             stats["unknown_or_timeout"] += 1
         else:
+            # no second opinion for this query (parser/solver error of the cross-check solver): counted, reported, not decisive
             stats["error"] += 1
-            problems.append(f"cvc5 {r}")
+            stats.setdefault("error_messages", []).append(str(r)[:160])
     return stats, problems
